@@ -19,6 +19,7 @@ for growths in ((1, 2) if tier == "quick" else (1, 2, 3, 4)):
     inputs += [" " * (n // 3 + 1), "é" * (n // 6 + 1), "a" * 10 + "€" * (n // 9 + 1), "%2f" * (n // 3 + 1) + " ", "\U0001f600" * (n // 12 + 1)]
 check_inputs = ["a b", "é" * 3000, "%41%zz/ +", " " * 9000, "x" * 8191 + " "]
 failures = []
+agree = [0, 0]
 points = 0
 mem_errors = 0
 for kw in cfgs:
@@ -29,6 +30,11 @@ for kw in cfgs:
         faultalloc.arm(-1)
         r = qc(s)
         req, _, nlive = faultalloc.disarm()
+        # the QuoteW.lean model (C19_quoteCW_fault_iff) predicts the number of growth requests of a clean run: one for every
+        # k with (k+1)*BUF < len(output).  Informational only: a different growth strategy is a harmless rewrite.
+        model_req = (len(expected) - 1) // BUF if (expected != s or len(expected) > BUF) and expected else 0
+        agree[0] += 1 if model_req == req else 0
+        agree[1] += 1
         if r != expected:
             failures.append({"what": f"clean run: compiled result differs from pure Python for input of length {len(s)}", "class": "backend-mismatch"})
         if nlive:
@@ -62,4 +68,5 @@ for kw in cfgs:
                 break
         if len(failures) > 8:
             break
-print(json.dumps({"failures": failures[:10], "fault_points": points, "memory_errors": mem_errors, "inputs": len(inputs) * len(cfgs)}))
+print(json.dumps({"failures": failures[:10], "fault_points": points, "memory_errors": mem_errors, "inputs": len(inputs) * len(cfgs),
+                  "growth_requests_as_predicted_by_QuoteW_model": "%d/%d clean runs" % (agree[0], agree[1])}))
